@@ -112,3 +112,44 @@ def cfile(relpath):
     if relpath not in REGISTRY:
         REGISTRY[relpath] = CFile(relpath)
     return REGISTRY[relpath]
+
+
+# ------------------------------------------------------------------------------------------------ renamed locals / parameters
+def _sub_names(text, mp):
+    if not isinstance(text, str) or not mp:
+        return text
+    return re.sub(r'\b(%s)\b' % '|'.join(re.escape(k) for k in sorted(mp, key=len, reverse=True)), lambda m: mp[m.group(1)], text)
+
+
+def rename_kernel(K, mp):
+    """apply a rename of C identifiers (old -> new) to every expression of a kernel contract, in place"""
+    if not mp:
+        return
+    K.requires_ = [_sub_names(e, mp) for e in K.requires_]
+    newprops = {}
+    for lst in ('ensures_', 'bounded_', 'assigns_'):
+        new = []
+        for e in getattr(K, lst):
+            e2 = _sub_names(e, mp); new.append(e2)
+            if e in K.props:
+                newprops[e2] = K.props[e]
+        setattr(K, lst, new)
+    K.props.update(newprops)
+    for lp in K.loops.values():
+        lp.var = mp.get(lp.var, lp.var)
+        lp.invariant = [_sub_names(e, mp) for e in lp.invariant]
+        lp.variant = _sub_names(lp.variant, mp)
+        lp.hints = [_sub_names(e, mp) for e in lp.hints]
+        lp.assume = [(n, _sub_names(e, mp)) for (n, e) in lp.assume]
+        if lp.assigns:
+            lp.assigns = [_sub_names(e, mp) for e in lp.assigns] if isinstance(lp.assigns, (list, tuple)) else _sub_names(lp.assigns, mp)
+    for g in K.ghosts:
+        # ghost parameters shadow C names: leave a ghost alone when one of its own parameters has the old name
+        if not (set(g.params) & set(mp)):
+            g.body = _sub_names(g.body, mp); g.decreases = _sub_names(g.decreases, mp); g.concrete = _sub_names(g.concrete, mp)
+    for lm in K.lemmas:
+        if not ((set(lm.fixed) | {lm.var}) & set(mp)):
+            lm.stmt = _sub_names(lm.stmt, mp); lm.pre = _sub_names(lm.pre, mp); lm.lo = _sub_names(lm.lo, mp); lm.trigger = _sub_names(lm.trigger, mp)
+            lm.hints = [_sub_names(e, mp) for e in lm.hints]; lm.instance = _sub_names(lm.instance, mp)
+    K.param_types = {mp.get(k, k): v for k, v in K.param_types.items()}
+    K.renamed = dict(getattr(K, 'renamed', {}), **mp)
